@@ -335,6 +335,27 @@ Proof. intros H. apply fd_unique_R. intros y Hy. destruct (H y Hy) as [H1 [H2 H3
   assert (El : length (n_H (nd (fst y))) = length (a_D (snd y))) by (rewrite HD, map_length; reflexivity).
   intros e He. rewrite HDI. rewrite El in He. apply gj_left_inverse; [|exact H3|exact He]. rewrite HD. apply D_square. Qed.
 
+Lemma node_ok_l_pivots {X} (nd : X -> node (SpatialVec R) (Vec3 R) (SpInertia (T:=R))) (dy : X -> dyn R (SpatialVec R))
+    (ud : X -> list R) (t : tree X) y :
+  In y (flatten (abi_pass KR AR nd t)) ->
+  length (d_f (dy (fst y))) = length (n_H (nd (fst y))) -> length (ud (fst y)) = length (n_H (nd (fst y))) -> pivots_ok (a_D (snd y)) ->
+  node_ok_l KR nd dy ud y.
+Proof. intros Hy H1 H2 H3.
+  split; [exact (body_ok_any_dof nd dy t y Hy H1 H3)|]. split; [|exact H2].
+  pose proof (abi_pass_DI nd t) as HDI. rewrite Forall_forall in HDI. specialize (HDI y Hy).
+  pose proof (abi_pass_D nd t) as HD. rewrite Forall_forall in HD. specialize (HD y Hy).
+  assert (El : length (n_H (nd (fst y))) = length (a_D (snd y))) by (rewrite HD, map_length; reflexivity).
+  intros e He. rewrite HDI. rewrite El in He. apply gj_left_inverse; [|exact H3|exact He]. rewrite HD. apply D_square. Qed.
+
+(** multiplyByMInv is also the LEFT inverse of multiplyByM:  M u = f  implies  M^-1 f = u, every tree, any dof *)
+Theorem mulMInv_mulM_id_pivots {X} (nd : X -> node (SpatialVec R) (Vec3 R) (SpInertia (T:=R))) (dy : X -> dyn R (SpatialVec R))
+    (u : X -> list R) (t : tree X) :
+  (forall y, In y (flatten (abi_pass KR AR nd t)) ->
+     length (d_f (dy (fst y))) = length (n_H (nd (fst y))) /\ length (u (fst y)) = length (n_H (nd (fst y))) /\ pivots_ok (a_D (snd y))) ->
+  Forall (fun r => snd r = d_f (dy (fst (fst r)))) (flatten (mulM KR nd u t)) ->
+  Forall (fun w => w_ud w = u (w_x w)) (flatten (mulMInv KR AR nd dy t)).
+Proof. intros H. apply mulMInv_mulM_id_R. intros y Hy. destruct (H y Hy) as [H1 [H2 H3]]. exact (node_ok_l_pivots nd dy u t y Hy H1 H2 H3). Qed.
+
 (** non-vacuity: a 3 x 3 symmetric positive definite block (as a Ball or Translation mobilizer produces) has non-zero pivots *)
 Example pivots_ok_example : pivots_ok [[4; 1; 0]; [1; 3; 1]; [0; 1; 2]].
 Proof. intros k Hk. cbn [length] in Hk.
